@@ -20,6 +20,18 @@ def main():
     if a.update_lock: os.environ['VERIF_UPDATE_LOCK'] = '1'
     rep = core.Report(a.prop, a.tier, seed, level=getattr(mod, 'LEVEL', 'proof'))
     try:
+        if 'vlib.pyvc' in sys.modules:
+            # soundness regression suite of the symbolic executor (vlib/selftest.py): false clauses, each violated natively, must not be proved
+            from vlib import selftest
+            ok, nc, no, probs, dt = selftest.run()
+            rep.extra['engine_selftest'] = dict(programs=nc, obligations=no, ok=ok, seconds=round(dt, 2), problems=probs[:5])
+            if not ok: rep.errors.append('engine self-test failed (vlib/selftest.py): ' + '; '.join(probs[:3]))
+        if 'vlib.symnp' in sys.modules:
+            # cross-check of the symbolic numpy lifting against numpy itself on concrete operands (vlib/symnp_selftest.py)
+            from vlib import symnp_selftest
+            ok, n, probs, dt = symnp_selftest.run(seed)
+            rep.extra['symnp_crosscheck'] = dict(comparisons=n, ok=ok, seconds=round(dt, 2), problems=probs[:5])
+            if not ok: rep.errors.append('symbolic-numpy cross-check failed (vlib/symnp_selftest.py): ' + '; '.join(probs[:3]))
         mod.run(rep)
     except Exception:
         traceback.print_exc()
